@@ -12,7 +12,8 @@ and for the public operations which clearing statement they reach: `Module.train
 function of (self.training, mode)), `Module._load_from_state_dict`, `ExactGP.set_train_data`,
 `_VariationalStrategy.__call__` (guard over (self.training, prior)), the creation site of the prediction
 strategy in `ExactGP.__call__`, the save / None / restore protocol of `ExactGP.get_fantasy_model`, the
-path condition under which `exact_predictive_covar` reads `covar_cache`, and the key discipline of
+path condition (over fast_pred_var, skip_posterior_variances, observation_nan_policy != "ignore") under which
+`exact_predictive_covar` reads `covar_cache`, and the key discipline of
 utils/memoize.py.
 
 Anything outside this vocabulary raises TranslateError (a broken tie; never skipped silently).  A clearing
@@ -469,33 +470,44 @@ class Translator:
         for b in ("training", "prior"):
             if assigns_strategy(branches[b]):
                 raise TranslateError(f"ExactGP.__call__: {b} branch assigns prediction_strategy (outside the vocabulary)")
-        guarded, forces_lazy, seen = False, False, False
+        guarded, keyed, seen = False, False, False
+        lazy_names = set()   # local names bound to settings.lazily_evaluate_kernels.on()
+        for st in branches["posterior"]:
+            if (isinstance(st, ast.Assign) and len(st.targets) == 1 and isinstance(st.targets[0], ast.Name)
+                    and _src(st.value) == "settings.lazily_evaluate_kernels.on()"):
+                lazy_names.add(st.targets[0].id)
+        is_none = "self.prediction_strategy is None"
         for st in branches["posterior"]:
             if not assigns_strategy([st]):
                 continue
             seen = True
-            inner = [st]
-            if (isinstance(st, ast.If) and isinstance(st.test, ast.Compare) and is_self_attr(st.test.left, "prediction_strategy")
-                    and len(st.test.ops) == 1 and isinstance(st.test.ops[0], ast.Is)
-                    and isinstance(st.test.comparators[0], ast.Constant) and st.test.comparators[0].value is None and not st.orelse):
+            if not isinstance(st, ast.If):
+                continue           # unconditional creation: rebuilt at every call
+            if st.orelse:
+                raise TranslateError("ExactGP.__call__: strategy creation has an else-branch (outside the vocabulary)")
+            test = _src(st.test)
+            if test == is_none:
                 guarded = True
-                inner = st.body
-            elif isinstance(st, ast.If):
-                raise TranslateError(f"ExactGP.__call__: strategy creation under `{_src(st.test)}` (outside the vocabulary)")
-            # where is the train prior evaluated?
-            for s2 in inner:
+            elif (isinstance(st.test, ast.BoolOp) and isinstance(st.test.op, ast.Or) and len(st.test.values) == 2
+                  and _src(st.test.values[0]) == is_none and isinstance(st.test.values[1], ast.Compare)
+                  and len(st.test.values[1].ops) == 1 and isinstance(st.test.values[1].ops[0], ast.NotEq)
+                  and is_self_attr(st.test.values[1].left) and isinstance(st.test.values[1].comparators[0], ast.Name)
+                  and st.test.values[1].comparators[0].id in lazy_names):
+                attr = st.test.values[1].left.attr
+                name = st.test.values[1].comparators[0].id
+                stored = any(isinstance(s2, ast.Assign) and len(s2.targets) == 1 and is_self_attr(s2.targets[0], attr)
+                             and isinstance(s2.value, ast.Name) and s2.value.id == name for s2 in st.body)
+                if not stored:
+                    raise TranslateError(f"ExactGP.__call__: self.{attr} is compared but not recorded when the strategy is built")
+                guarded, keyed = True, True
+            else:
+                raise TranslateError(f"ExactGP.__call__: strategy creation under `{test}` (outside the vocabulary)")
+            for s2 in st.body:
                 if isinstance(s2, ast.With):
-                    items = [_src(i.context_expr) for i in s2.items]
-                    has_train_out = any(isinstance(n, ast.Assign) and any(isinstance(t, ast.Name) and t.id == "train_output" for t in n.targets)
-                                        for n in ast.walk(s2))
-                    if has_train_out:
-                        if items == ["settings.lazily_evaluate_kernels(True)"]:
-                            forces_lazy = True
-                        else:
-                            raise TranslateError(f"ExactGP.__call__: train prior evaluated under {items} (outside the vocabulary)")
+                    raise TranslateError("ExactGP.__call__: strategy built inside a `with` block (outside the vocabulary)")
         if not seen:
             raise TranslateError("ExactGP.__call__: creation site of prediction_strategy not found")
-        return guarded, forces_lazy
+        return guarded, keyed
 
     def covar_read_guard(self):
         src = self.src
@@ -503,7 +515,19 @@ class Translator:
         if fn is None:
             raise TranslateError("DefaultPredictionStrategy.exact_predictive_covar not found")
 
+        nan_names = {st.targets[0].id for st in fn.body
+                     if isinstance(st, ast.Assign) and len(st.targets) == 1 and isinstance(st.targets[0], ast.Name)
+                     and _src(st.value) == "settings.observation_nan_policy.value()"}
+
         def atom(n):
+            # `nan_policy != "ignore"` where nan_policy = settings.observation_nan_policy.value()
+            if (isinstance(n, ast.Compare) and len(n.ops) == 1 and isinstance(n.left, ast.Name) and n.left.id in nan_names
+                    and isinstance(n.comparators[0], ast.Constant) and n.comparators[0].value == "ignore"):
+                if isinstance(n.ops[0], ast.NotEq):
+                    return "nan"
+                if isinstance(n.ops[0], ast.Eq):
+                    return "(!nan)"
+                return None
             if (isinstance(n, ast.Call) and isinstance(n.func, ast.Attribute) and n.func.attr in ("on", "off") and not n.args
                     and isinstance(n.func.value, ast.Attribute) and isinstance(n.func.value.value, ast.Name)
                     and n.func.value.value.id == "settings"):
@@ -548,7 +572,7 @@ class Translator:
         m = src.methods("DefaultPredictionStrategy").get("exact_predictive_mean")
         if m is None or not any(_src(s) == "mean_cache = self.mean_cache" for s in m.body):
             raise TranslateError("DefaultPredictionStrategy.exact_predictive_mean: unconditional `mean_cache = self.mean_cache` not found")
-        return f"fun fpv skip => {guard}"
+        return f"fun fpv skip nan => {guard}"
 
     def fantasy(self):
         fn = self.src.methods("ExactGP").get("get_fantasy_model")
@@ -636,7 +660,7 @@ class Translator:
         T["loadClears"] = self.load_clears()
         T["setTrainData"] = self.set_train_data()
         T["varCallClears"] = self.var_call_guard()
-        T["strategyGuardedByIsNone"], T["strategyForcesLazy"] = self.strategy_creation()
+        T["strategyGuardedByIsNone"], T["strategyKeyedOnLazy"] = self.strategy_creation()
         T["defaultReadsCovarCache"] = self.covar_read_guard()
         (T["fantasyNeedsStrategy"], T["fantasyNulled"], T["fantasyRestored"], T["fantasyRestoreInFinally"]) = self.fantasy()
         T["hookClearsWholeMemo"], T["memoKeyHonoursArgs"] = self.memoize()
@@ -694,7 +718,7 @@ class Translator:
         L.append("    setTrainData := [" + ", ".join(self._eff(e) for e in T["setTrainData"]) + "],")
         L.append(f"    varCallClears := {T['varCallClears']},")
         L.append(f"    strategyGuardedByIsNone := {b(T['strategyGuardedByIsNone'])},")
-        L.append(f"    strategyForcesLazy := {b(T['strategyForcesLazy'])},")
+        L.append(f"    strategyKeyedOnLazy := {b(T['strategyKeyedOnLazy'])},")
         L.append(f"    defaultReadsCovarCache := {T['defaultReadsCovarCache']},")
         L.append(f"    fantasyNeedsStrategy := {b(T['fantasyNeedsStrategy'])},")
         L.append(f"    fantasyNulled := [{', '.join(map(str, T['fantasyNulled']))}],")
